@@ -42,6 +42,18 @@ class Canon(ast.NodeTransformer):
     def visit_Await(self, node: ast.Await):
         return self.visit(node.value)
 
+    def visit_NamedExpr(self, node: ast.NamedExpr):
+        return self.visit(node.value)  # `(x := e)` has the value of e
+
+    def visit_Subscript(self, node: ast.Subscript):
+        node = self.generic_visit(node)
+        # element of a literal tuple / list (a helper that returns `(a, b)` unpacked by its caller)
+        if isinstance(node.value, (ast.Tuple, ast.List)) and isinstance(node.slice, ast.Constant) and isinstance(node.slice.value, int) and not any(isinstance(x, ast.Starred) for x in node.value.elts):
+            i = node.slice.value
+            if -len(node.value.elts) <= i < len(node.value.elts):
+                return node.value.elts[i]
+        return node
+
     def visit_Name(self, node: ast.Name):
         if not isinstance(node.ctx, ast.Load):
             return node
@@ -60,6 +72,17 @@ class Canon(ast.NodeTransformer):
                     sub = Canon(self.I, f, self.msg, self.depth + 1, self.subst_params)
                     sub._active = self._active
                     return sub.visit(copy.deepcopy(la[0]))
+                finally:
+                    self._active.discard(node.id)
+            ta = self.I.tuple_assigns(f).get(node.id)
+            if ta is not None and len(la) == 1 and la[0] is None and len(ta) == 1 and node.id not in self._active and self.depth < 12:
+                # `a, b = <expr>`: a is element 0 of <expr>
+                val, idx = ta[0]
+                self._active.add(node.id)
+                try:
+                    sub = Canon(self.I, f, self.msg, self.depth + 1, self.subst_params)
+                    sub._active = self._active
+                    return sub.visit(ast.Subscript(value=copy.deepcopy(val), slice=ast.Constant(value=idx), ctx=ast.Load()))
                 finally:
                     self._active.discard(node.id)
             return node
@@ -89,8 +112,20 @@ class Canon(ast.NodeTransformer):
         node.value = self.visit(node.value)
         # projection of a constructor call onto a stored parameter
         if isinstance(node.value, ast.Call):
-            c = self._repo_class(node.value.func)
+            c = self._repo_class(node.value.func, getattr(node.value, "_mod", None))
             if c is not None:
+                flds = self.I.record_fields(c)
+                if flds is not None and node.attr in flds:
+                    for kw in node.value.keywords:
+                        if kw.arg == node.attr:
+                            return kw.value
+                    i = flds.index(node.attr)
+                    if i < len(node.value.args) and not any(isinstance(a, ast.Starred) for a in node.value.args):
+                        return node.value.args[i]
+                    dflt = self.I.record_default(c, node.attr)
+                    if dflt is not None and not any(kw.arg is None for kw in node.value.keywords):
+                        return self.visit(copy.deepcopy(dflt))
+                    return node
                 stored = self.I.stored_params(c)
                 inv = {attr: prm for prm, attr in stored.items()}
                 if node.attr in inv:
@@ -121,7 +156,11 @@ class Canon(ast.NodeTransformer):
                     sub[kw.arg] = self.visit(copy.deepcopy(kw.value))
             if ok and all(p in sub for p in params):
                 inner = Canon(self.I, f, "", self.depth + 1, sub)
-                return inner.visit(copy.deepcopy(ret))
+                res = inner.visit(copy.deepcopy(ret))
+                for n in ast.walk(res):  # names in the inlined expression belong to the helper's module
+                    if isinstance(n, ast.Call) and not hasattr(n, "_mod"):
+                        n._mod = f.module  # type: ignore[attr-defined]
+                return res
         return self.generic_visit(node)
 
     def _getter(self, call: ast.Call):
@@ -142,16 +181,36 @@ class Canon(ast.NodeTransformer):
             body = body[1:]
         if not body or not isinstance(body[-1], ast.Return) or body[-1].value is None:
             return None
+        private = f.name.startswith("_") and not f.name.startswith("__")
         for st in body[:-1]:
-            if not (isinstance(st, ast.If) and not st.orelse and len(st.body) == 1 and isinstance(st.body[0], ast.Raise)):
+            strict = isinstance(st, ast.If) and not st.orelse and len(st.body) == 1 and isinstance(st.body[0], ast.Raise)
+            if not (strict or (private and _value_neutral(st))):
                 return None
         return f, body[-1].value
 
-    def _repo_class(self, fn: ast.expr) -> ClassInfo | None:
-        d = self.I.prog.resolve_expr(self.f.module, fn) if isinstance(fn, (ast.Name, ast.Attribute)) else None
+    def _repo_class(self, fn: ast.expr, mod=None) -> ClassInfo | None:
+        d = self.I.prog.resolve_expr(mod or self.f.module, fn) if isinstance(fn, (ast.Name, ast.Attribute)) else None
         if d is not None and d.kind == "class":
             return d.obj
         return None
+
+
+def _value_neutral(st: ast.stmt) -> bool:
+    """A statement that can only bind locals or raise: it does not change what the final `return <expr>` of a getter
+    evaluates to (locals are substituted by Canon itself)."""
+    if isinstance(st, ast.Raise) or isinstance(st, ast.Pass):
+        return True
+    if isinstance(st, ast.Assign):
+        return all(isinstance(t, ast.Name) or (isinstance(t, ast.Tuple) and all(isinstance(x, ast.Name) for x in t.elts)) for t in st.targets)
+    if isinstance(st, ast.AnnAssign):
+        return isinstance(st.target, ast.Name)
+    if isinstance(st, ast.If):
+        return all(_value_neutral(x) for x in st.body + st.orelse)
+    if isinstance(st, ast.Try):
+        return all(_value_neutral(x) for x in st.body + st.orelse + st.finalbody) and all(all(_value_neutral(x) for x in h.body) for h in st.handlers)
+    if isinstance(st, ast.Expr) and isinstance(st.value, ast.Constant):
+        return True
+    return False
 
 
 def canon(I: Interp, f: FuncInfo, e: ast.AST, msg: str | None = None) -> str:
